@@ -246,3 +246,153 @@ Proof.
   intros [Hn Hp] E. unfold lru_peek, lru_remove. rewrite E. cbn. split; [reflexivity|]. split; [|reflexivity].
   split; [|exact Hp]. rewrite E in Hn. inversion Hn. assumption.
 Qed.
+
+(** * Size bound and panic-freedom of the existence cache (cache size >= 1) *)
+Definition keys (m : list (nat * N)) : list nat := map fst m.
+
+Lemma keys_remove_key x k m : In x (keys (remove_key k m)) <-> x <> k /\ In x (keys m).
+Proof.
+  unfold keys. induction m as [|[a b] r IH]; cbn; [tauto|].
+  destruct (Nat.eqb k a) eqn:E.
+  - apply Nat.eqb_eq in E. subst. rewrite IH. intuition congruence.
+  - apply Nat.eqb_neq in E. cbn. rewrite IH. intuition congruence.
+Qed.
+
+Lemma keys_remove_key_nodup k m : NoDup (keys m) -> NoDup (keys (remove_key k m)).
+Proof.
+  unfold keys. induction m as [|[a b] r IH]; cbn; [auto|]. intros H. inversion H; subst.
+  destruct (Nat.eqb k a); [auto|]. cbn. constructor; [|auto].
+  intros X. apply (keys_remove_key a k r) in X. tauto.
+Qed.
+
+Lemma lookup_keys k m : lookup k m <> None <-> In k (keys m).
+Proof.
+  unfold keys. induction m as [|[a b] r IH]; cbn; [tauto|].
+  destruct (Nat.eqb k a) eqn:E.
+  - apply Nat.eqb_eq in E. subst. split; [auto|discriminate].
+  - apply Nat.eqb_neq in E. rewrite IH. intuition congruence.
+Qed.
+
+Record ecinv (e : ec) : Prop := mkecinv {
+  ei_q : NoDup (lq (elru e));
+  ei_p : lpanic (elru e) = false;
+  ei_k : NoDup (keys (times e));
+  ei_same : forall k, In k (lq (elru e)) <-> In k (keys (times e)) }.
+
+Lemma ecinv_length e : ecinv e -> length (times e) = length (lq (elru e)).
+Proof.
+  intros [Q P K S]. unfold keys in *. rewrite <- (map_length fst (times e)).
+  apply Permutation_length. apply NoDup_Permutation; [exact K|exact Q|]. intros x. symmetry. apply S.
+Qed.
+
+Lemma ecinv_empty : ecinv ec_empty.
+Proof. constructor; cbn; try constructor; tauto. Qed.
+
+Lemma ec_remove_existing_inv dur now ds : forall e, ecinv e -> ecinv (snd (ec_remove_existing dur now ds e)).
+Proof.
+  induction ds as [|d r IH]; intros e I; cbn [ec_remove_existing]; [exact I|].
+  destruct (lookup d (times e)) as [t0|] eqn:L.
+  - destruct (fresh dur now t0).
+    + apply IH. destruct I as [Q P K S].
+      assert (Hin : In d (lq (elru e))) by (apply S, lookup_keys; rewrite L; discriminate).
+      destruct (lru_touch_spec d (elru e) (conj Q P) Hin) as [[Q' P'] E].
+      constructor; cbn [elru times]; try assumption.
+      intros k. rewrite E, in_app_iff, remove_nat_in, <- S. cbn.
+      destruct (Nat.eq_dec k d) as [->|N]; intuition congruence.
+    + destruct (ec_remove_existing dur now r e) as [m e'] eqn:R. cbn. specialize (IH e I). rewrite R in IH. exact IH.
+  - destruct (ec_remove_existing dur now r e) as [m e'] eqn:R. cbn. specialize (IH e I). rewrite R in IH. exact IH.
+Qed.
+
+Lemma ec_evict_inv e : ecinv e -> times e <> [] ->
+  ecinv (ec_evict e) /\ S (length (times (ec_evict e))) = length (times e).
+Proof.
+  intros I Hne. pose proof (ecinv_length e I) as Hl. destruct I as [Q P K S0].
+  assert (OK : lru_ok (elru e)) by (split; assumption).
+  unfold ec_evict. destruct (lq (elru e)) as [|k r] eqn:E.
+  - exfalso. destruct (times e); [contradiction|discriminate].
+  - destruct (lru_remove_spec (elru e) k r OK E) as (Pk & [Q' P'] & Er). rewrite Pk.
+    assert (I' : ecinv (mkec (remove_key k (times e)) (lru_remove (elru e)))).
+    { constructor; cbn [elru times]; try assumption.
+      - apply keys_remove_key_nodup. exact K.
+      - intros x. rewrite Er, keys_remove_key, <- S0. cbn. inversion Q; subst.
+        split; [intros H; split; [intros ->; contradiction|right; exact H]|intros [N [H|H]]; [congruence|exact H]]. }
+    split; [exact I'|]. rewrite (ecinv_length _ I'). cbn [elru]. rewrite Er, Hl. reflexivity.
+Qed.
+
+Lemma length_remove_key d m : (length (remove_key d m) <= length m)%nat.
+Proof. induction m as [|[a b] m IHm]; cbn; [lia|]. destruct (Nat.eqb d a); cbn; lia. Qed.
+
+Lemma ec_add_inv size now ds : (1 <= size)%nat -> forall e, ecinv e -> (length (times e) <= size)%nat ->
+  ecinv (ec_add size now ds e) /\ (length (times (ec_add size now ds e)) <= size)%nat.
+Proof.
+  intros Hs. induction ds as [|d r IH]; intros e I Hl; cbn [ec_add]; [auto|].
+  set (e1 := if Nat.leb size (length (times e)) then ec_evict e else e).
+  assert (H1 : ecinv e1 /\ (length (times e1) < size)%nat).
+  { unfold e1. destruct (Nat.leb size (length (times e))) eqn:E.
+    - apply Nat.leb_le in E.
+      assert (Hne : times e <> []) by (destruct (times e); [cbn in E; lia|discriminate]).
+      destruct (ec_evict_inv e I Hne) as [I' L']. split; [exact I'|lia].
+    - apply Nat.leb_gt in E. auto. }
+  destruct H1 as [I1 L1]. pose proof I1 as [Q P K S0].
+  assert (Kset : NoDup (keys (set_time d now (times e1)))).
+  { unfold set_time. cbn. constructor; [intros X; apply (keys_remove_key d d (times e1)) in X; tauto|apply keys_remove_key_nodup; exact K]. }
+  destruct (lookup d (times e1)) as [t0|] eqn:L.
+  - assert (Hd : In d (keys (times e1))) by (apply lookup_keys; rewrite L; discriminate).
+    assert (Hlen : length (set_time d now (times e1)) = length (times e1)).
+    { assert (P1 : Permutation (keys (set_time d now (times e1))) (keys (times e1))).
+      { apply NoDup_Permutation; [exact Kset|exact K|].
+        intros x. unfold set_time. cbn. fold (keys (remove_key d (times e1))). rewrite keys_remove_key.
+        destruct (Nat.eq_dec x d) as [->|N]; intuition congruence. }
+      apply Permutation_length in P1. unfold keys in P1. rewrite !map_length in P1. exact P1. }
+    destruct (t0 <? now)%N; apply IH; try exact I1; try lia.
+    + constructor; cbn [elru times]; try assumption.
+      intros k. rewrite S0. unfold set_time. cbn. fold (keys (remove_key d (times e1))). rewrite keys_remove_key.
+      destruct (Nat.eq_dec k d) as [->|N]; intuition congruence.
+    + cbn [times]. lia.
+  - assert (Hnd : ~ In d (keys (times e1))) by (intros X; apply lookup_keys in X; apply X; exact L).
+    assert (Hq : ~ In d (lq (elru e1))) by (rewrite S0; exact Hnd).
+    destruct (lru_insert_spec d (elru e1) (conj Q P) Hq) as [[Q' P'] E].
+    apply IH.
+    + constructor; cbn [elru times]; try assumption.
+      intros k. rewrite E, in_app_iff, S0. unfold set_time. cbn. fold (keys (remove_key d (times e1))). rewrite keys_remove_key.
+      destruct (Nat.eq_dec k d) as [->|N]; intuition congruence.
+    + cbn [times set_time length]. pose proof (length_remove_key d (times e1)). lia.
+Qed.
+
+(** With a cache size of at least 1 the cache never holds more than [size]
+    entries, never touches an empty queue, and the queue holds exactly the
+    cached keys - through any sequence of RemoveExisting / Add calls. *)
+Theorem ec_bounded size dur ops : (1 <= size)%nat ->
+  forall s, ecinv (cache s) -> (length (times (cache s)) <= size)%nat ->
+  let s' := snd (erun size dur ops s) in
+  ecinv (cache s') /\ (length (times (cache s')) <= size)%nat.
+Proof.
+  intros Hs. induction ops as [|o r IH]; intros s I L; cbn [erun]; [auto|].
+  destruct (estep size dur o s) as [ob s1] eqn:E.
+  assert (H1 : ecinv (cache s1) /\ (length (times (cache s1)) <= size)%nat).
+  { destruct o as [ds d1 d2 fault|ds d1|ds d1|d|d]; cbn [estep] in E.
+    - pose proof (ec_remove_existing_inv dur (now s + d1) (dedup_sort ds) (cache s) I) as I1.
+      pose proof (ec_remove_existing_spec dur (now s + d1) (dedup_sort ds) (cache s)) as T.
+      destruct (ec_remove_existing dur (now s + d1) (dedup_sort ds) (cache s)) as [mm c1]. cbn [snd] in I1.
+      destruct (T mm c1 eq_refl) as (T1 & _).
+      destruct (negb (Z.eqb fault 0)); inversion E; subst; cbn [cache].
+      + rewrite T1. auto.
+      + apply ec_add_inv; [exact Hs|exact I1|rewrite T1; exact L].
+    - pose proof (ec_remove_existing_inv dur (now s + d1) (dedup_sort ds) (cache s) I) as I1.
+      pose proof (ec_remove_existing_spec dur (now s + d1) (dedup_sort ds) (cache s)) as T.
+      destruct (ec_remove_existing dur (now s + d1) (dedup_sort ds) (cache s)) as [mm c1]. cbn [snd] in I1.
+      destruct (T mm c1 eq_refl) as (T1 & _). inversion E; subst; cbn [cache]. rewrite T1. auto.
+    - inversion E; subst; cbn [cache]. apply ec_add_inv; assumption.
+    - inversion E; subst; cbn [cache]. auto.
+    - inversion E; subst; cbn [cache]. auto. }
+  destruct H1 as [I1 L1]. specialize (IH s1 I1 L1). destruct (erun size dur r s1) as [obs s2]. cbn [snd] in *. exact IH.
+Qed.
+
+(** Consequently no answer names more cached digests than the cache size:
+    the digests a RemoveExisting call leaves out are distinct cached keys. *)
+Theorem ec_no_panic size dur ops : (1 <= size)%nat ->
+  lpanic (elru (cache (snd (erun size dur ops (mkest ec_empty 0%N []))))) = false.
+Proof.
+  intros Hs. destruct (ec_bounded size dur ops Hs (mkest ec_empty 0%N []) ecinv_empty) as [I _]; [cbn; lia|].
+  apply (ei_p _ I).
+Qed.
